@@ -10,7 +10,7 @@ the nine 3×3 products). Four views of the three-angle constructor are bridged: 
 `dRdAngleZ_` — the latter three are the "derivative" matrices about which `Properties/C12.lean` proves the characterisation
 `reported = true derivative + spurious term` (the open known finding). Eigen's fixed-size product is read as
 `(a_i0*b_0j + a_i1*b_1j) + a_i2*b_2j` on both sides. Generic in the scalar type, `rfl`; core Lean only.
-`Pose3D.cpp`'s `operator*` (6×6 Jacobian) is NOT translated (Eigen `Affine3d`, blocks, arrays of matrices).
+`Pose3D.cpp`'s `operator*(Affine3d, Pose3D)` (6×6 Jacobian, propagated covariance) is translated and bridged in `Bridge/C12Pose.lean`.
 -/
 set_option linter.unusedSectionVars false
 
